@@ -8,27 +8,12 @@
 (* code.  The catch symbol is `e`; the context binds a GLOBAL e so that a  *)
 (* handler variable leaking into `finally` or past the try is observable.  *)
 (***************************************************************************)
-EXTENDS GenProg
+EXTENDS GenProg, Grammars
 
 CONSTANTS MaxSize, SampleSize, SampleN
 
-CtxText == "(def e :outer-e) (def thrower (fn [v] (throw v))) " \o
-           "(def deep (fn [n v] (if (< n 1) (throw v) (deep (- n 1) v)))) " \o
-           "(defmacro mthrow (fn [v] `(throw ~v)))"
-CtxForms == ReadAll(CtxText)
-
-G == Grammar(
-  <<"1", "\"s\"", ":k", "'sym", "'(1 2)", "'(+ 1 2)", "{:a 1}", "nil", "e", "(raise!)", "(boom!)",
-    "(boom-str!)", "(nth [] 5)", "(trace! :b)", "undefined-symbol", "['x]">>,
-  <<"(throw _1)", "(thrower _1)", "(deep 2 _1)", "(mthrow _1)", "(try _1)", "(try _1 (catch e e))",
-    "(try _1 (catch e :h))", "(try _1 (catch e (throw e)))", "(try _1 (catch e (trace! e)))",
-    "(try _1 (finally (trace! :f)))", "(try _1 (finally (trace! e)))",
-    "(try _1 (catch e e) (finally (trace! e)))", "(list _1 e)", "(trace! _1)",
-    "(try _1 (catch e (list 1 e)))", "(try _1 (catch x (trace! e) x))">>,
-  <<"(try _1 (catch e _2))", "(try _1 (catch e _2) (finally (trace! :f)))", "(try _1 (finally _2))",
-    "(do _1 _2)", "(try _1 _2 (catch e e))", "(try _1 (catch e (trace! e) _2))",
-    "(let [e _1] (try _2 (catch e e) (finally (trace! e))))">>,
-  <<"(try _1 (catch e _2) (finally _3))">>)
+CtxForms == C03CtxForms
+G == C03G
 
 NMax == IF SampleSize > MaxSize THEN SampleSize ELSE MaxSize
 ASSUME InitRegisters
